@@ -93,8 +93,7 @@ def rule_C(ck, lib, sk):
                           and val[1][1].endswith("::split_at"))
                 if halves:
                     base_, cnt_ = val[1][2]
-                    g = any(c[0] == "true" and c[1][0] == "bin" and ((c[1][1] == "Lt" and c[2] is False) or (c[1][1] == "Ge" and c[2] is True)) and c[1][3] == cnt_
-                            and c[1][2][0] == "call" and c[1][2][1].endswith("::len") and c[1][2][2] == (base_,) for c in x.conds)
+                    g = guarded(sk, f, x, cnt_, base_)
                     ck.ok("C08-V", "%s:value" % name, "payload / remainder = rest.split_at(count)")
                     ck.judge(g, "C08-C", "%s:length-guard" % name, "taken only when rest.len() >= count", "payload split is not guarded by `rest.len() < count`")
                     continue
@@ -104,13 +103,20 @@ def rule_C(ck, lib, sk):
                          "block payload/remainder are not the two halves of one split: %s / %s" % (show_term(val), show_term(rem)))
                 if ok:
                     cnt = dict(val[2][2]).get("end")
-                    guard = any(c[0] == "true" and c[2] is False and c[1] == ("bin", "Lt", ("call", "core::slice::len", (val[1],), c[1][2][3] if c[1][0] == "bin" and c[1][2][0] == "call" else None), cnt)
-                                for c in x.conds if c[0] == "true" and c[1][0] == "bin")
-                    g2 = any(c[0] == "true" and c[2] is False and c[1][0] == "bin" and c[1][1] == "Lt" and c[1][3] == cnt and c[1][2][0] == "call"
-                             and c[1][2][1].endswith("::len") and c[1][2][2] == (val[1],) for c in x.conds)
+                    g2 = guarded(sk, f, x, cnt, val[1])
                     ck.judge(g2, "C08-C", "%s:length-guard" % name, "taken only when rest.len() >= count", "payload split is not guarded by `rest.len() < count`")
     ck.floor("C08-C", "string recognisers", n_str, 2)
     ck.floor("C08-C", "block recognisers", n_blk, 1)
+
+
+def guarded(sk, f, x, cnt, base):
+    """count <= len(rest) is entailed on the accepting path (a length test, a checked `get(..count)` ...): the payload is
+    taken only when all of its bytes are there."""
+    import fm
+    import slicelin
+    sl = slicelin.SliceLin(sk, f["ps"], f.get("inp"))
+    facts = sl.premises(x) + sl.cond_facts(x)
+    return fm.entails(facts, fm.le(sl.L(cnt), sl.ln(base)))
 
 
 def rule_I(ck, lib, sk, rid):
